@@ -275,7 +275,8 @@ class HiveParser(parser.Parser):
             return expression
 
         if isinstance(expression, exp.Column):
-            key = expression.this
+            # copy: the identifier must not be shared between the column and the struct key
+            key = expression.this.copy()
         else:
             key = exp.to_identifier(f"col{index + 1}")
 
